@@ -419,6 +419,20 @@ func (g *Gen) strct(depth int) *Node {
 		n.ExtraFirst = r.P(50)
 	}
 	g.tests(n)
+	if depth == 0 {
+		// a struct-level test reported under the key of one of the fields (the "passwords must match"
+		// idiom): that key then collects issues from two nodes
+		for i := range n.Tests {
+			if n.Tests[i].OptPath != nil && len(n.Fields) > 0 && r.P(65) {
+				f := n.Fields[r.Intn(len(n.Fields))]
+				k := f.Key
+				if t, ok := f.Tags["zog"]; ok {
+					k = t
+				}
+				n.Tests[i].OptPath = &k
+			}
+		}
+	}
 	g.pts(n)
 	if depth == 0 && len(n.PTs) == 0 && r.P(g.P.PTopPT) {
 		n.PTs = append(n.PTs, g.pt(n))
@@ -504,6 +518,7 @@ func ProfileByName(name string) Profile {
 		p.PTests = 80
 		p.PInvalid = 45
 		p.Repeats = 7
+		p.PIssuePath = 12 // issues filed under another node's key: the key's list is built from several visits
 	case "C12":
 		p.PUserTest = 60
 		p.PPT = 50
